@@ -42,6 +42,10 @@ def gen_pair(rng, mode):
     elif mode == 'ext2':
         # binary nonterminals: rules with two external nodes, listed in either order by either grammar
         names = [{'S': 0, 'X': 1, 'R': 2, 'R2': 2}, {'S': 0, 'Y': 1, 'Q': 2}]
+    elif mode == 'conflict_hidden':
+        # harmless name clashes (nonterminals a, c of the first grammar vs terminals a, c of the second) come EARLIER in the
+        # first grammar's label order than a genuine conflict on the terminal b
+        names = [{'S': 0, 'a': 1, 'c': 0}, {'S': 0, 'Y': 1, 'V': 0}]
     elif mode == 'nt_named_like_term':
         # a NONTERMINAL of the first grammar is named like a TERMINAL of the second (legal: only two terminals can conflict)
         names = [{'S': 0, 'a': 1, 'c': 0}, {'S': 0, 'Y': 1, 'V': 0}]
@@ -77,6 +81,8 @@ def gen_pair(rng, mode):
                     typ = TERMS[t]
                     if mode == 'conflict' and gi == 1 and t == 'a':
                         typ = ['T', 'T']
+                    if mode == 'conflict_hidden' and gi == 1 and t == 'b':
+                        typ = ['T']
                     if len(typ) > len(sk['nodes']):
                         continue
                     els[t] = {'t': True, 'type': list(typ)}
@@ -99,14 +105,14 @@ def gen_pair(rng, mode):
                 e['id'] = e['id'] + '#' + e['lab']
     g2 = g1 if mode in ('self', 'self_implicit') else mk(1)
     # a terminal name used in both must have ONE type unless we want a conflict
-    if mode != 'conflict':
+    if mode not in ('conflict', 'conflict_hidden'):
         for t in TERMS:
             if t in g1['els'] and t in g2['els'] and g1['els'][t]['t'] and g2['els'][t]['t']:
                 g2['els'][t] = g1['els'][t]
     return g1, g2
 
 
-def build(cg, implicit=False, cache=None):
+def build(cg, implicit=False, cache=None, rules_out=None):
     import fggs
     nl = fggs.NodeLabel('T')
     el = {n: fggs.EdgeLabel(n, [nl] * len(d['type']), is_terminal=d['t'], is_nonterminal=not d['t']) for n, d in cg['els'].items()}
@@ -133,7 +139,10 @@ def build(cg, implicit=False, cache=None):
                 ed = fggs.Edge(el[e['lab']], att, id=e['id'])
             rhs.add_edge(ed)
         rhs.ext = [nodes[a] for a in r['ext']]
-        h.add_rule(fggs.HRGRule(el[r['lhs']], rhs))
+        rule = fggs.HRGRule(el[r['lhs']], rhs)
+        h.add_rule(rule)
+        if rules_out is not None:
+            rules_out.append(rule)
     return h, cache
 
 
@@ -156,8 +165,30 @@ def drive(args):
     c = {'g1': g1, 'g2': g2, 'out': 'ok', 'h': {'els': {}, 'start': '', 'rules': []}, 'hint': [], 'tag': [mode]}
     try:
         implicit = mode == 'self_implicit'
-        h1, cache = build(g1, implicit)
+        rules1 = []
+        h1, cache = build(g1, implicit, rules_out=rules1)
         h2 = h1 if mode in ('self', 'self_implicit') else build(g2, implicit, cache)[0]
+        if mode == 'history_mutate' and rules1:
+            # a HISTORY: conjoin, edit a right-hand side of the first grammar in place, conjoin again (judged) --
+            # whatever the first call remembered about the rules must not outlive the edit
+            import copy
+            try:
+                fggs.conjoin_hrgs(h1, h2)
+            except Exception:
+                pass
+            rng = rng_for(0, 'c17hist' + json.dumps(g1, sort_keys=True)[:200])
+            ri = rng.randrange(len(rules1))
+            g1 = copy.deepcopy(g1)
+            c['g1'] = g1
+            nl = fggs.NodeLabel('T')
+            if rng.random() < 0.5:
+                rules1[ri].rhs.add_node(fggs.Node(nl, id='zz'))
+                g1['rules'][ri]['nodes'].append({'id': 'zz', 'l': 'T'})
+            else:
+                nts0 = [n for n, d in g1['els'].items() if not d['t'] and d['type'] == []]
+                lab = rng.choice(nts0)
+                rules1[ri].rhs.add_edge(fggs.Edge(h1.get_edge_label(lab), [], id='zzE'))
+                g1['rules'][ri]['edges'].append({'id': 'zzE', 'lab': lab, 'att': []})
     except Exception as e:  # noqa
         raise MachineryFailure(f'building conjunction inputs failed: {e!r}')
     try:
@@ -180,11 +211,11 @@ def run(tier, seed):
                      'the naming of nonterminal pairs is read from fggs.conjunction.nonterminal_pairs as a hint that TLC checks; without a working hint TLC searches all namings (up to 4 pairs)']
     rng = rng_for(seed, 'c17')
     n = 240 if tier == 'quick' else 3000
-    modes = ['plain', 'clash3', 'clash', 'sharedterm', 'self', 'self_implicit', 'conflict', 'ext2', 'nt_named_like_term']
+    modes = ['plain', 'clash3', 'clash', 'sharedterm', 'self', 'self_implicit', 'conflict', 'ext2', 'nt_named_like_term', 'history_mutate', 'conflict_hidden']
     jobs = []
     for i in range(n):
         mode = modes[i % len(modes)]
-        g1, g2 = gen_pair(rng, mode)
+        g1, g2 = gen_pair(rng, 'plain' if mode == 'history_mutate' else mode)
         jobs.append((g1, g2, mode))
     with Scratch() as work:
         cases = pmap(drive, jobs)
